@@ -67,7 +67,17 @@ impl Server {
         let ok = write_frame(i, &req).is_ok();
         let resp = if ok { read_frame(o).ok().flatten() } else { None };
         match resp {
-            Some(buf) => Ok(dec_response(&buf)),
+            Some(buf) => {
+                if buf.len() > 50_000_000 && std::env::var("VERIF_DEBUG_FRAMES").is_ok() {
+                    let ts = dec_response(&buf);
+                    let mut big: Vec<(usize, usize, usize, usize)> = ts.iter().enumerate().map(|(i, t)| (t.a.items.len() + t.a.log.len() * 4, i, t.a.items.len(), t.a.log.len())).collect();
+                    big.sort();
+                    big.reverse();
+                    eprintln!("BIGFRAME {} bytes from {} lexer {} cases {}: top {:?} input lens {:?}", buf.len(), self.bin.display(), lexer_idx, cases.len(), &big[..big.len().min(4)], big.iter().take(4).map(|b| cases[b.1].input.len()).collect::<Vec<_>>());
+                    return Ok(ts);
+                }
+                Ok(dec_response(&buf))
+            }
             None => {
                 let code = child.wait().ok().and_then(|s| s.code());
                 self.proc_ = None;
